@@ -89,7 +89,8 @@ def run(tier):
     rp = Report("C20", tier)
     rng = random.Random(common.seed())
     theorems = ["Props.C20.C20_resume_point_is_rescan", "Props.C20.C20_position_work_linear", "Props.C20.C20_rescan_quadratic_refuted",
-                "Props.C20.C20_tokenizer_iterations_linear", "Props.C20.C20_statement_loop_iterations_linear", "Props.C20.C20_collect_visits_linear"]
+                "Props.C20.C20_tokenizer_iterations_linear", "Props.C20.C20_statement_loop_iterations_linear", "Props.C20.C20_collect_visits_linear",
+                "Props.C20.C20_recovery_work_linear", "Props.C20.C20_recovery_restart_quadratic_refuted"]
     try:
         with common.Lock():
             common.stage_harness()
